@@ -82,6 +82,10 @@ func decodeChecks(ctx *core.Ctx, pc *ProgCase, cc *CodecCell, i int, si int, st 
 		if only == nil {
 			ctx.Report(fmt.Sprintf("%s|decoder rejects the canonical encoding (%s)|%s|%s|%s", l, sfx, errWord(o.ErrText), progClass(pc.Prog.Name), optsInForce(pc.Prog)),
 				fmt.Sprintf("program %s message %s: %s\nbytes %s\n%s", pc.Prog.Name, m.ID, o.ErrText, core.Trunc(hexOf(ref), 300), core.Trunc(pc.Text, 600)), rep)
+		} else if only(wire.KMatch) && si == 0 {
+			// every key carried by an enumerated message is in the table: a rejection is a dispatch failure
+			ctx.Report(fmt.Sprintf("%s|decoder rejects a message whose key is in the match table|%s|%s", l, errWord(o.ErrText), progClass(pc.Prog.Name)),
+				fmt.Sprintf("program %s message %s: %s\nvalue %s\nbytes %s\n%s", pc.Prog.Name, m.ID, o.ErrText, core.Trunc(rep["value"].(string), 300), core.Trunc(hexOf(ref), 300), core.Trunc(pc.Text, 600)), rep)
 		}
 		return
 	}
@@ -140,7 +144,7 @@ func C02(ctx *core.Ctx) int {
 	progs := replayFilter(ctx, codecPrograms(ctx))
 	cases := buildCases(ctx, progs, maxDevFor(ctx))
 	langs := devLangs()
-	runCodec(ctx, cases, langs)
+	langs = runCodec(ctx, cases, langs)
 	st := newCodecStats()
 	forEachObservable(cases, langs, st, func(pc *ProgCase, cc *CodecCell) {
 		for i := range pc.Msgs {
@@ -160,7 +164,7 @@ func C03(ctx *core.Ctx) int {
 	progs := replayFilter(ctx, codecPrograms(ctx))
 	cases := buildCases(ctx, progs, maxDevFor(ctx))
 	langs := devLangs()
-	runCodec(ctx, cases, langs)
+	langs = runCodec(ctx, cases, langs)
 	st := newCodecStats()
 	pairsHeld := 0
 	type cross struct {
@@ -271,7 +275,7 @@ func C03(ctx *core.Ctx) int {
 		for k, x := range crosses {
 			for _, l := range langs {
 				cc := x.pc.Cells[l]
-				if l == x.from || cc == nil || !cc.Observable() {
+				if l == x.from || cc == nil || !cc.Observable() || strings.Contains(l, "@") {
 					continue
 				}
 				kk := key{x.pc, l}
@@ -476,7 +480,7 @@ func projection(ctx *core.Ctx, progs []*dsl.Program, kind wire.FKind, rule strin
 	progs = replayFilter(ctx, progs)
 	cases := buildCases(ctx, progs, maxDevFor(ctx))
 	langs := devLangs()
-	runCodec(ctx, cases, langs)
+	langs = runCodec(ctx, cases, langs)
 	st := newCodecStats()
 	only := func(k wire.FKind) bool { return k == kind }
 	forEachObservable(cases, langs, st, func(pc *ProgCase, cc *CodecCell) {
